@@ -103,6 +103,9 @@ def iterate(stream, mode=1, validate=1, parsed=True, labelmsm=1, use_handler=Tru
     return run
 
 
+_FOLDS = {}
+
+
 class CrcSummary:
     """fold summary of calc_crc24q (Engine K): the CRC register after a long prefix is a fresh 24-bit variable (one per
     distinct prefix, keyed on term identity); the remaining <= 8 bytes go through the extracted real loop body.
@@ -111,7 +114,10 @@ class CrcSummary:
     def __init__(self, thresh=6):
         from . import transforms
         st = shims.install()
-        self.fold = transforms.Fold(st['orig']['calc_crc24q'])
+        fn = st['orig']['calc_crc24q']
+        if _FOLDS.get('fn') is not fn:
+            _FOLDS['fn'], _FOLDS['fold'] = fn, transforms.Fold(fn)     # extracted once per process
+        self.fold = _FOLDS['fold']
         self.direct = base_crc()
         self.thresh = thresh
         self.summ = []
